@@ -123,10 +123,22 @@ def make_coders():
             ct = CompiledTemplateManager.get_or_compile(self, template, table_group)
             return loads_compiled_template(json.dumps(ct.to_dict()))
 
-    d = dict(plain=Decoder(), compiled=Decoder(compiled_template_cache_max=3), reloaded=Decoder(compiled_template_cache_max=0))
+    class SavingManager(CompiledTemplateManager):
+        """a caller who writes every compiled template to disk (what `pybufrkit compile` prints) and goes on using the cached
+        original: saving is a read, the template executes afterwards as before"""
+        def get_or_compile(self, template, table_group):
+            ct = CompiledTemplateManager.get_or_compile(self, template, table_group)
+            json.dumps(ct.to_dict())
+            return ct
+
+    d = dict(plain=Decoder(), compiled=Decoder(compiled_template_cache_max=3), reloaded=Decoder(compiled_template_cache_max=0),
+             saved=Decoder(compiled_template_cache_max=3))
     d['reloaded'].compiled_template_manager = ReloadManager(0)
-    e = dict(plain=Encoder(), compiled=Encoder(compiled_template_cache_max=3), reloaded=Encoder(compiled_template_cache_max=0))
+    d['saved'].compiled_template_manager = SavingManager(3)
+    e = dict(plain=Encoder(), compiled=Encoder(compiled_template_cache_max=3), reloaded=Encoder(compiled_template_cache_max=0),
+             saved=Encoder(compiled_template_cache_max=3))
     e['reloaded'].compiled_template_manager = ReloadManager(0)
+    e['saved'].compiled_template_manager = SavingManager(3)
     return d, e
 
 
@@ -180,7 +192,7 @@ def compare_message(ctx, decs, encs, b, ids, spec, do_encode=True):
         ctx.count('marker_programs')
     if base[0] == 'exc':
         ctx.count('plain_decode_raises')
-    for name in ('compiled', 'reloaded'):
+    for name in ('compiled', 'reloaded', 'saved', 'saved'):
         o = outcome(lambda: snap(decs[name].process(b)))
         ctx.count('decodes_%s_compared' % name)
         if o[0] == 'exc' and base[0] == 'exc' and o[1] == base[1]:
@@ -199,7 +211,7 @@ def compare_message(ctx, decs, encs, b, ids, spec, do_encode=True):
     except Exception:
         return
     eb = outcome(lambda: ('ok', encs['plain'].process(fjs).serialized_bytes))
-    for name in ('compiled', 'reloaded'):
+    for name in ('compiled', 'reloaded', 'saved', 'saved'):
         o = outcome(lambda: ('ok', encs[name].process(fjs).serialized_bytes))
         ctx.count('encodes_compared')
         if o[0] == 'exc' and eb[0] == 'exc' and o[1] == eb[1]:
@@ -387,7 +399,11 @@ def history(ctx, pool):
             o = outcome(lambda: snap(dec.process(b)))
             ctx.count('history_steps')
             ctx.evaluated((b.hex(), 'hist', size, step, tuple(order[:step])), True)
-            keys = set(dec.compiled_template_manager.cache.keys())
+            try:      # (private bookkeeping of the manager: evidence and an ADVISORY only)
+                keys = set(dec.compiled_template_manager.cache.keys())
+            except Exception:
+                keys = set()
+                ctx.count('cache_probe_unavailable')
             if prev_keys - keys:
                 ctx.count('evictions_seen')
             prev_keys = keys
